@@ -457,6 +457,13 @@ Fixpoint has_relrel (sc : schema) (vars : list (Z * Z)) (c : cond) : bool :=   (
   | CNot p => has_relrel sc vars p
   | _ => false
   end.
+Fixpoint has_or_join (c : cond) : bool :=      (* an equality join below an or_: multiplicities in memory are the evaluator's own *)
+  match c with
+  | COr p q => (1 <=? Z.of_nat (eqjoin_atoms p + eqjoin_atoms q)) || has_or_join p || has_or_join q
+  | CAnd p q => has_or_join p || has_or_join q
+  | CNot p => has_or_join p
+  | _ => false
+  end.
 Definition b2z (b : bool) (k : Z) : Z := if b then k else 0.
 Definition classes (sc : schema) (q : query) (w : world) : Z :=
   match q_cond q with
@@ -473,6 +480,7 @@ Definition classes (sc : schema) (q : query) (w : world) : Z :=
       + b2z (has_strtruth sc (q_vars q) w c) 128
       + b2z ((1 <=? Z.of_nat (eqjoin_atoms c)) && ((2 <=? Z.of_nat (eqjoin_atoms c)) || existsb long_chain ops)) 256
       + b2z (has_relrel sc (q_vars q) c) 512
+      + b2z (has_or_join c) 1024
   end.
 
 (* what the harness asks per case: [model; spec; [f07; classes]] *)
